@@ -336,24 +336,39 @@ for _tag, _res, _close, _free in (
 # A residue that carries OXT in the middle of a chain ends a hidden chain: the chain is split there and BOTH pieces have
 # their termini assigned again - with the options of the run, like every other chain (assign_termini mocked: its own
 # contracts are above).  Two shapes: one hidden end, no hidden end.
-def STRES(i, oxt, cterm):
-    ents = [("N", Obj("pdb2pqr.structures:Atom", name=Const("N"), chain_id=Const("A")))]
+def STRES(i, oxt, cterm, ch="A"):
+    ents = [("N", Named(f"s{i}_n", Obj("pdb2pqr.structures:Atom", name=Const("N"), chain_id=Const(ch))))]
     if oxt:
-        ents.append(("OXT", Obj("pdb2pqr.structures:Atom", name=Const("OXT"), chain_id=Const("A"))))
-    return Named(f"s{i}", Obj("pdb2pqr.aa:GLY", name=Const("GLY"), chain_id=Const("A"), is_c_term=Const(cterm), is_n_term=Const(0),
-                              map=DictOf(*ents), atoms=Items()))
+        ents.append(("OXT", Named(f"s{i}_oxt", Obj("pdb2pqr.structures:Atom", name=Const("OXT"), chain_id=Const(ch)))))
+    return Named(f"s{i}", Obj("pdb2pqr.aa:GLY", name=Const("GLY"), chain_id=Const(ch), is_c_term=Const(cterm), is_n_term=Const(0),
+                              map=DictOf(*ents), atoms=Items(*[Ref(f"s{i}_" + k.lower()) for k, _ in ents])))
 
 
-def _set_termini(tag, residues, ens):
-    CH = Named("ch0", Obj("pdb2pqr.structures:Chain", chain_id=Const("A"), residues=Items(*residues)))
+def STNUC(i, name, three):
+    return Named(f"s{i}", Obj("pdb2pqr.na:ADE", name=Const(name), chain_id=Const("A"), is3term=Const(three), is5term=Const(0),
+                              map=DictOf(("P", Named(f"s{i}_p", Obj("pdb2pqr.structures:Atom", name=Const("P"), chain_id=Const("A"))))),
+                              atoms=Items(Ref(f"s{i}_p"))))
+
+
+def same_chain(res, ch):
+    ok = res.chain_id == ch
+    for a in res.atoms:
+        ok = ok and a.chain_id == ch
+    return ok
+
+
+def _set_termini(tag, residues, ens, ch="A"):
+    CH = Named("ch0", Obj("pdb2pqr.structures:Chain", chain_id=Const(ch), residues=Items(*residues)))
     contract(
         "pdb2pqr.biomolecule:Biomolecule.set_termini", ["C02", "C01"],
-        params={"self": Obj("pdb2pqr.biomolecule:Biomolecule", chains=Items(CH), chainmap=DictOf(("A", Ref("ch0")))),
+        params={"self": Obj("pdb2pqr.biomolecule:Biomolecule", chains=Items(CH), chainmap=DictOf((ch, Ref("ch0")))),
                 "neutraln": Bool, "neutralc": Bool},
         requires=[],
         ensures=[
             # every assignment of termini - first pass and after a split - is made with the options of this run
             "forall(calls_of('assign_termini'), lambda c: c.args['neutraln'] is neutraln and c.args['neutralc'] is neutralc)",
+            # every chain is in the chain map under some id
+            "forall(self.chains, lambda c: exists(self.chainmap, lambda k: self.chainmap[k] is c))",
         ] + ens,
         trace={"pdb2pqr.biomolecule:Biomolecule.assign_termini": None},
         name=f"set_termini.{tag}", native=False, budget=5000,
@@ -365,7 +380,9 @@ _set_termini("hidden_end", [STRES(0, False, 0), STRES(1, True, 0), STRES(2, Fals
     "len(self.chains) == 2 and len(self.chains[0].residues) == 2 and self.chains[0].residues[0] is s0 "
     "and self.chains[0].residues[1] is s1",
     "self.chains[1] is ch0 and len(ch0.residues) == 2 and ch0.residues[0] is s2 and ch0.residues[1] is s3",
-    "self.chains[0].chain_id != 'A' and s0.chain_id == self.chains[0].chain_id and s1.chain_id == self.chains[0].chain_id",
+    # a residue and its atoms carry one and the same id: that of the piece they are in
+    "self.chains[0].chain_id != 'A' and same_chain(s0, self.chains[0].chain_id) and same_chain(s1, self.chains[0].chain_id)",
+    "same_chain(s2, 'A') and same_chain(s3, 'A')",
     "len(calls_of('assign_termini')) == 3",
     "exists(calls_of('assign_termini')[1:], lambda c: c.args['chain'] is ch0) and "
     "exists(calls_of('assign_termini')[1:], lambda c: c.args['chain'] is self.chains[0])",
@@ -373,3 +390,30 @@ _set_termini("hidden_end", [STRES(0, False, 0), STRES(1, True, 0), STRES(2, Fals
 _set_termini("no_hidden_end", [STRES(0, False, 0), STRES(1, True, 1)], [
     "len(self.chains) == 1 and len(ch0.residues) == 2 and len(calls_of('assign_termini')) == 1",
 ])
+# two hidden ends: three pieces, in the order of the input, each with its own id, each assigned after its split
+_set_termini("two_hidden_ends", [STRES(0, True, 0), STRES(1, False, 0), STRES(2, True, 0), STRES(3, True, 1)], [
+    "len(self.chains) == 3 and self.chains[2] is ch0",
+    "len(self.chains[0].residues) == 1 and self.chains[0].residues[0] is s0",
+    "len(self.chains[1].residues) == 2 and self.chains[1].residues[0] is s1 and self.chains[1].residues[1] is s2",
+    "len(ch0.residues) == 1 and ch0.residues[0] is s3",
+    "self.chains[0].chain_id != self.chains[1].chain_id and self.chains[0].chain_id != 'A' and self.chains[1].chain_id != 'A'",
+    "same_chain(s0, self.chains[0].chain_id) and same_chain(s1, self.chains[1].chain_id) and same_chain(s2, self.chains[1].chain_id) "
+    "and same_chain(s3, 'A')",
+    "len(calls_of('assign_termini')) == 5",
+    "forall(self.chains, lambda ch: exists(calls_of('assign_termini')[1:], lambda c: c.args['chain'] is ch))",
+])
+# a nucleic acid strand with a 3-prime end in the middle (name ending in "3")
+_set_termini("nucleic_hidden_end", [STNUC(0, "DA", 0), STNUC(1, "DA3", 0), STNUC(2, "DA", 0), STNUC(3, "DA3", 1)], [
+    "len(self.chains) == 2 and len(self.chains[0].residues) == 2 and self.chains[0].residues[1] is s1",
+    "self.chains[1] is ch0 and len(ch0.residues) == 2 and ch0.residues[0] is s2",
+    "same_chain(s0, self.chains[0].chain_id) and same_chain(s1, self.chains[0].chain_id) and self.chains[0].chain_id != 'A'",
+    "len(calls_of('assign_termini')) == 3",
+])
+# blank chain id: the split-off piece gets a letter, and so does what is left - no residue ends with a blank chain id,
+# and the two pieces do not share one
+_set_termini("blank_id.hidden_end", [STRES(0, True, 0, ""), STRES(1, True, 1, "")], [
+    "len(self.chains) == 2 and self.chains[0].residues[0] is s0 and self.chains[1] is ch0 and ch0.residues[0] is s1",
+    "not ('' in self.chainmap)",
+    "len(s0.chain_id) == 1 and len(s1.chain_id) == 1 and s0.chain_id != s1.chain_id",
+    "same_chain(s0, s0.chain_id) and same_chain(s1, s1.chain_id)",
+], ch="")
